@@ -725,31 +725,80 @@ impl Update {
         } else {
             Vec::new()
         };
-        // Update the rows.
-        for value_refs in rows.iter_mut() {
+        // Decide which rows to update, and work out their new values.
+        let updates: Vec<(usize, Value)> = self
+            .updates
+            .iter()
+            .map(|(column_name, value)| {
+                let index = table.index_for_column_name(column_name).unwrap();
+                (index, value.clone().into_storable())
+            })
+            .collect();
+        let mut new_rows =
+            Vec::<(Vec<Value>, bool)>::with_capacity(rows.len());
+        for value_refs in rows.iter() {
+            let mut values: Vec<Value> = value_refs
+                .iter()
+                .map(|value_ref| value_ref.to_value(string_pool))
+                .collect();
             let should_update = match self.condition {
                 Some(ref expr) => {
-                    let values: Vec<Value> = value_refs
-                        .iter()
-                        .map(|value_ref| value_ref.to_value(string_pool))
-                        .collect();
-                    let row = Row::new(table.clone(), values);
+                    let row = Row::new(table.clone(), values.clone());
                     expr.eval(&row).to_bool()
                 }
                 None => true,
             };
             if should_update {
-                for (column_name, value) in self.updates.iter() {
-                    let index =
-                        table.index_for_column_name(column_name).unwrap();
-                    let value_ref = &mut value_refs[index];
-                    value_ref.remove(string_pool);
-                    *value_ref = ValueRef::create(
-                        value.clone().into_storable(),
-                        string_pool,
+                for (index, value) in updates.iter() {
+                    values[*index] = value.clone();
+                }
+            }
+            new_rows.push((values, should_update));
+        }
+        // If primary key columns are being assigned, make sure the keys stay
+        // unique, and find the new order of the rows.
+        let key_indices = table.primary_key_indices();
+        let updates_keys =
+            updates.iter().any(|(index, _)| key_indices.contains(index));
+        let mut order: Vec<usize> = (0..rows.len()).collect();
+        if updates_keys {
+            let keys: Vec<Vec<&Value>> = new_rows
+                .iter()
+                .map(|(values, _)| {
+                    key_indices.iter().map(|&index| &values[index]).collect()
+                })
+                .collect();
+            order.sort_by(|&index1, &index2| keys[index1].cmp(&keys[index2]));
+            for pair in order.windows(2) {
+                if keys[pair[0]] == keys[pair[1]] {
+                    already_exists!(
+                        "Update would give multiple rows of table {:?} the \
+                         key {:?}",
+                        self.table_name,
+                        keys[pair[0]]
                     );
                 }
             }
+        }
+        // Update the rows.
+        for (value_refs, (_, should_update)) in
+            rows.iter_mut().zip(new_rows.iter())
+        {
+            if *should_update {
+                for (index, value) in updates.iter() {
+                    let value_ref = &mut value_refs[*index];
+                    value_ref.remove(string_pool);
+                    *value_ref = ValueRef::create(value.clone(), string_pool);
+                }
+            }
+        }
+        if updates_keys {
+            let mut slots: Vec<Option<Vec<ValueRef>>> =
+                rows.into_iter().map(Some).collect();
+            rows = order
+                .into_iter()
+                .map(|index| slots[index].take().unwrap())
+                .collect();
         }
         // Write the table back out to the file.
         let stream = comp.create_stream(&stream_name)?;
